@@ -53,7 +53,6 @@ SELF_FIELDS = {"n_inserted": ("nIns", "nat"), "n_removed": ("nRem", "nat"),
 # attribute of a PriorityValue -> (field of PV, type)
 PV_FIELDS = {"base_priority": ("base", "rat"), "inserted_at": ("insertedAt", "nat"),
              "priority_boost": ("boost", "rat"), "priority_class": ("cls", "nat")}
-PV_METHODS = {"priority": ("Gen.pvPriority", "rat")}
 EXC = {"IndexError": "indexError", "ValueError": "valueError", "AssertionError": "assertionError"}
 
 # self._pq.<method>: (parameter names, defaults, structural?)  — the emission is in `pq_call`
@@ -143,6 +142,7 @@ class MethodInfo:
         self.params = []            # (python name, type, default ast or None)
         self.ret = None
         self.nat_asserts = set()
+        self.pv_mode = False        # a method of PriorityValue: `self` is a PV value
 
 
 def lean_name(py):
@@ -304,7 +304,7 @@ class MethodTr:
             v = self.lookup(e.id, env)
             return v.lean, v.ty
         if isinstance(e, ast.Attribute):
-            if is_self_attr(e):
+            if is_self_attr(e) and not self.m.pv_mode:
                 if e.attr in SELF_FIELDS:
                     f, ty = SELF_FIELDS[e.attr]
                     return f"{env.s}.{f}", ty
@@ -316,8 +316,15 @@ class MethodTr:
         if isinstance(e, ast.Tuple):
             parts = [self.pure(x, env) for x in e.elts]
             return "(" + ", ".join(p[0] for p in parts) + ")", ("tuple",) + tuple(p[1] for p in parts)
-        if isinstance(e, ast.List) and not e.elts:
-            return "[]", ("list", None)
+        if isinstance(e, ast.List):
+            if not e.elts:
+                return "[]", ("list", None)
+            parts = [self.pure(x, env) for x in e.elts]
+            ty = parts[0][1]
+            for _, t2 in parts[1:]:
+                if t2 != ty:
+                    raise Unsupported("list literal with elements of different types")
+            return "[" + ", ".join(p[0] for p in parts) + "]", ("list", "nat" if ty == "num" else ty)
         if isinstance(e, ast.IfExp):
             nt = self.narrow_test(e.test, env)
             if nt and len(nt[1]) == 1:
@@ -370,6 +377,12 @@ class MethodTr:
         x, y, t = self.unify(x, tx, y, ty_, "branches of a conditional expression")
         return x, y, t
 
+    def iterable(self, e, env):
+        """an expression that is iterated: a list, or `self._pq` (PriorityQueue.__iter__: objects in array order)"""
+        if is_self_attr(e, "_pq"):
+            return f"({env.s}.q.pq.map (·.obj))", ("list", "obj")
+        return self.pure(e, env)
+
     def pure_call(self, e, env):
         f = e.func
         if isinstance(f, ast.Name) and f.id in ("min", "max") and len(e.args) == 2 and not e.keywords:
@@ -405,10 +418,17 @@ class MethodTr:
             if not self.m.rand_direct:
                 raise Unsupported("random.random() inside a loop")
             return "rand", "rat"
-        if isinstance(f, ast.Attribute) and f.attr in PV_METHODS and not e.args and not e.keywords \
-                and isinstance(f.value, ast.Name) and self.lookup(f.value.id, env).ty in ("pv", "pvref"):
-            fn, ty = PV_METHODS[f.attr]
-            return f"({fn} {self.pv_of(f.value, env)})", ty
+        if isinstance(f, ast.Attribute) and f.attr in self.c.pv_methods and not e.keywords \
+                and isinstance(f.value, ast.Name) and f.value.id in env.vars \
+                and self.lookup(f.value.id, env).ty in ("pv", "pvref"):
+            fn, ptys, ty = self.c.pv_methods[f.attr]
+            if len(e.args) != len(ptys):
+                raise Unsupported(f"arguments of PriorityValue.{f.attr}")
+            args = []
+            for a, pt in zip(e.args, ptys):
+                x, tx = self.pure(a, env)
+                args.append(self.atom(self.coerce(x, tx, pt, f"argument of PriorityValue.{f.attr}")))
+            return "(" + " ".join([fn, self.pv_of(f.value, env)] + args) + ")", ty
         if isinstance(f, ast.Name) and f.id == PV_CLASS:
             args = self.bind_args(e, self.c.pv_params, self.c.pv_defaults, "PriorityValue")
             vals = [self.pure(a, env) for a in args]
@@ -507,6 +527,8 @@ class MethodTr:
 
     # -- effectful expressions, continuation-passing
     def effectful(self, e):
+        if self.m.pv_mode:
+            return False
         for n in ast.walk(e):
             if is_pq_call(n) or is_sibling_call(n):
                 return True
@@ -544,6 +566,12 @@ class MethodTr:
         env.s = nm
         return f"let {nm} : PosPQ := {text}", env
 
+    def plt(self):
+        """the comparison the heap applies to priorities: the translated `PriorityValue.__lt__`"""
+        if "__lt__" not in self.c.pv_methods:
+            raise Unsupported("the heap compares priorities with PriorityValue.__lt__, which is not translated")
+        return self.c.pv_methods["__lt__"][0]
+
     def pq_call(self, e, m, env, kk, k):
         if m not in PQ_API:
             raise Unsupported(f"self._pq.{m}(…) is not in the PriorityQueue binding table")
@@ -561,17 +589,17 @@ class MethodTr:
             if m == "add":
                 pv = self.coerce(vals[0][0], vals[0][1], "pv", "add(pri)")
                 ob = self.coerce(vals[1][0], vals[1][1], "obj", "add(obj)")
-                ln, env2 = self.set_state(env, f"{{ {s} with q := PQ.add H PV.lt {q} {pv} {ob} }}")
+                ln, env2 = self.set_state(env, f"{{ {s} with q := PQ.add H {self.plt()} {q} {pv} {ob} }}")
                 return [ln] + k("()", "none", env2)
             if m in ("refresh", "sort", "clear"):
-                op = {"refresh": "PQ.refresh H PV.lt", "sort": "PQ.sort PV.lt", "clear": "PQ.clear"}[m]
+                op = {"refresh": f"PQ.refresh H {self.plt()}", "sort": f"PQ.sort {self.plt()}", "clear": "PQ.clear"}[m]
                 ln, env2 = self.set_state(env, f"{{ {s} with q := {op} {q} }}")
                 return [ln] + k("()", "none", env2)
             if m in ("pop", "popitem"):
                 en, qn = self.fresh("e"), self.fresh("q")
                 ln, env2 = self.set_state(env, f"{{ {s} with q := {qn} }}")
                 val = (f"{en}.obj", "obj") if m == "pop" else (f"({en}.pri, {en}.obj)", ("tuple", "pv", "obj"))
-                return ([f"match PQ.popEntry H PV.lt {q} with", "| none =>"] + ind(kk.exc(env, "indexError"))
+                return ([f"match PQ.popEntry H {self.plt()} {q} with", "| none =>"] + ind(kk.exc(env, "indexError"))
                         + [f"| some ({en}, {qn}) =>"] + ind([ln] + k(val[0], val[1], env2)))
             if m in ("peek", "peekitem"):
                 en = self.fresh("e")
@@ -582,21 +610,21 @@ class MethodTr:
                 ob = self.coerce(vals[0][0], vals[0][1], "obj", "remove(obj)")
                 en, qn = self.fresh("e"), self.fresh("q")
                 ln, env2 = self.set_state(env, f"{{ {s} with q := {qn} }}")
-                return ([f"match PQ.remove H PV.lt {q} {ob} with", "| none =>"] + ind(kk.exc(env, "valueError"))
+                return ([f"match PQ.remove H {self.plt()} {q} {ob} with", "| none =>"] + ind(kk.exc(env, "valueError"))
                         + [f"| some ({en}, {qn}) =>"] + ind([ln] + k(f"{en}.pri", "pv", env2)))
             if m == "find":
                 key = self.coerce(vals[0][0], vals[0][1], "key", "find(key)")
                 rm = self.coerce(vals[1][0], vals[1][1], "bool", "find(remove)")
                 r = self.fresh("r")
                 ln, env2 = self.set_state(env, f"{{ {s} with q := {r}.2 }}")
-                return ([f"let {r} := PQ.find H PV.lt {q} {key} {rm}", ln]
+                return ([f"let {r} := PQ.find H {self.plt()} {q} {key} {rm}", ln]
                         + k(f"({r}.1.map (fun e => (e.pri, e.obj)))", ("opt", ("tuple", "pv", "obj")), env2))
             if m == "reschedule":
                 key = self.coerce(vals[0][0], vals[0][1], "key", "reschedule(key)")
                 pv = self.coerce(vals[1][0], vals[1][1], "pv", "reschedule(new_priority)")
                 r = self.fresh("r")
                 ln, env2 = self.set_state(env, f"{{ {s} with q := {r}.2 }}")
-                return ([f"let {r} := PQ.reschedule H PV.lt {q} {key} {pv}", ln]
+                return ([f"let {r} := PQ.reschedule H {self.plt()} {q} {key} {pv}", ln]
                         + k(f"{r}.1", ("opt", "obj"), env2))
             raise Unsupported(m)
         return self.eval_many(args, env, kk, go)
@@ -750,6 +778,9 @@ class MethodTr:
                         new = f"{var.lean} ++ {x}"
                     ls, env3 = self.bind_local(name, new, env2.vars[name].ty, env2)
                     return ls + kk.fall(env3)
+                if v.func.attr == "extend" and is_self_attr(v.args[0], "_pq"):
+                    x, t = self.iterable(v.args[0], env)
+                    return k(x, t, env)
                 return self.eval(v.args[0], env, kk, k)
             if isinstance(v, ast.Call) and (is_pq_call(v) or is_sibling_call(v)):
                 return self.eval(v, env, kk, lambda x, t, env2: kk.fall(env2))
@@ -1109,7 +1140,7 @@ class MethodTr:
         it = st.iter
         if isinstance(it, ast.Call) and is_pq_call(it) == "items" and not it.args:
             return self.loop_common(st, env, kk, "items", [f"{env.s}.q.pq", "0"], None)
-        x, t = self.pure(it, env)
+        x, t = self.iterable(it, env)
         if not (isinstance(t, tuple) and t[0] == "list"):
             raise Unsupported(f"for-loop over a {t}")
         if has_ref(t):
@@ -1193,6 +1224,8 @@ class ClassTr:
         pv = next((n for n in ast.walk(tree) if isinstance(n, ast.ClassDef) and n.name == PV_CLASS), None)
         if self.cls is None or pv is None:
             raise Unsupported(f"{CLASS} / {PV_CLASS} not found")
+        self.pv_cls = pv
+        self.pv_methods = {}
         # the dataclass fields and their defaults
         self.pv_params, self.pv_defaults = [], {}
         for n in pv.body:
@@ -1324,8 +1357,53 @@ class ClassTr:
         return ("/-- `PosPriorityQueue.__init__` -/\ndef init : PosPQ :=\n  { "
                 + ", ".join(f"{f} := {got[f]}" for f in want) + " }")
 
+    def pv_method_defs(self, failed):
+        """the methods of the dataclass, as pure functions of a `PV` value: locals, `if`, `return`"""
+        out = []
+        self.pv_methods = {}
+        for fn in [n for n in self.pv_cls.body if isinstance(n, ast.FunctionDef)]:
+            name = "pv_" + lean_name(fn.name)
+            try:
+                info = MethodInfo(fn, self.source)
+                info.pv_mode = True
+                if fn.args.vararg or fn.args.kwarg or fn.args.kwonlyargs or fn.decorator_list or fn.args.defaults:
+                    raise Unsupported("signature")
+                ptys = [ann_type(a.annotation) for a in fn.args.args[1:]]
+                info.ret = ann_type(fn.returns)
+                tr = MethodTr(self, info)
+                env = Env()
+                env.vars[fn.args.args[0].arg] = Var("self", "pv")
+                binders = ""
+                for a, pt in zip(fn.args.args[1:], ptys):
+                    env.vars[a.arg] = Var(a.arg, pt)
+                    binders += f" ({a.arg} : {lean_ty(pt)})"
+
+                def fall(env2):
+                    raise Unsupported("control can fall off the end")
+
+                def ret(env2, x, t):
+                    return [tr.coerce(x, t, info.ret, "return value")]
+
+                def exc(env2, kind):
+                    raise Unsupported("exception in a PriorityValue method")
+                for n in ast.walk(fn):
+                    if isinstance(n, (ast.For, ast.While, ast.Try, ast.With, ast.Attribute)) and not isinstance(n, ast.Attribute):
+                        raise Unsupported(f"{type(n).__name__} in a PriorityValue method")
+                    if isinstance(n, (ast.Assign, ast.AugAssign)):
+                        for tg in (n.targets if isinstance(n, ast.Assign) else [n.target]):
+                            if not isinstance(tg, ast.Name):
+                                raise Unsupported("a PriorityValue method that writes attributes")
+                body = tr.block(body_no_doc(fn), env, K(fall, ret, exc))
+                out.append("\n".join([f"/-- `{PV_CLASS}.{fn.name}` -/",
+                                      f"def {name} (self : PV){binders} : {lean_ty(info.ret)} :="] + ind(body)))
+                self.pv_methods[fn.name] = (name, ptys, info.ret)
+            except Unsupported as e:
+                failed[f"{PV_CLASS}.{fn.name}"] = str(e)
+        return out
+
     def translate(self):
         parts, failed = [], {}
+        parts += self.pv_method_defs(failed)
         try:
             parts.append(self.init_def())
         except Unsupported as e:
@@ -1374,11 +1452,11 @@ def generate(src: Path) -> dict:
     except (Unsupported, SyntaxError) as e:
         parts, failed = [], {"<class>": f"{type(e).__name__}: {e}"}
     head = ["-- GENERATED by translator/pospq2lean.py from src/asynkit/experimental/priority.py — do not edit",
-            "import Asynkit.Model.PosPQRt", "import Asynkit.Gen.Priority",
+            "import Asynkit.Model.PosPQRt",
             "set_option linter.unusedVariables false", "namespace Asynkit.Gen.PosPQ", "open Asynkit", ""]
     notes = []
     for name, why in failed.items():
-        msg = f"UNSUPPORTED {CLASS}.{name}: {why}"
+        msg = f"UNSUPPORTED {name if '.' in name else CLASS + '.' + name}: {why}"
         print("pospq2lean: " + msg, file=sys.stderr)
         notes.append("-- " + msg.replace("\n", " "))
     if notes:
